@@ -163,6 +163,7 @@ class Decl:
         if self.auto_flush:
             # zero flush interval: may_flush() fires on every update; half of the programs flush explicitly instead
             self.zero_interval = rng.random() < 0.5
+            self.flushed_midway = False
             dur = "std::time::Duration::from_millis(0)" if self.zero_interval else "std::time::Duration::from_secs(3600)"
             out.append("    let vec: &%s = &VEC;" % vt)
             out.append("    let m: %s = auto_flush_from!(VEC, %s, %s);" % (self.struct, self.struct, dur))
@@ -175,7 +176,17 @@ class Decl:
             out.append("    let vec = %s::new(%s, &[%s]).unwrap();" % (vt, opts, perm))
             out.append("    let m = %s::from(&vec);" % self.struct)
         expected = {}  # value tuple (declaration order) -> (sum, count)
+        pend = {}  # value tuple -> (amount, observations) accumulated locally since the last flush (long interval only)
         npaths = 0
+        num = (lambda a: "%d.0" % a) if base in ("Counter", "Gauge", "Histogram") else (lambda a: "%d" % a)
+        if self.auto_flush and not self.zero_interval:
+            # an update that is reset()/clear()ed before any flush must never reach the child
+            idents0, tup0 = self.leaves()[0]
+            e0 = "m." + ".".join(idents0)
+            out.append("    " + self.update_code(e0, rng.randint(1, 1 << 20)))
+            out.append("    %s.%s();" % (e0, "clear" if base == "Histogram" else "reset"))
+            out.append("    r.part.count(\"auto_flush_reset_or_clear_calls\", 1);")
+            expected.setdefault(tuple(tup0), (0, 0))
         for idents, tup in self.leaves():
             # 1) plain field path
             variants = ["m." + ".".join(idents)]
@@ -205,7 +216,33 @@ class Decl:
                 key = tuple(tup)
                 s, c = expected.get(key, (0, 0))
                 expected[key] = (s + amount, c + 1)
+                pa, pc_ = pend.get(key, (0, 0))
+                pend[key] = (pa + amount, pc_ + 1)
                 npaths += 1
+            if self.auto_flush:
+                expr = variants[0]
+                key = tuple(tup)
+                if base != "Histogram":
+                    out.append("    %s.inc();" % expr)
+                    s0, c0 = expected.get(key, (0, 0))
+                    expected[key] = (s0 + 1, c0 + 1)
+                    pa, pc_ = pend.get(key, (0, 0))
+                    pend[key] = (pa + 1, pc_ + 1)
+                    # the local getter shows what is pending: nothing when every update flushes, everything otherwise
+                    pending = 0 if self.zero_interval else pend[key][0]
+                    out.append("    if %s.get() != %s { r.fail(%d, \"auto-flush-local-get-wrong\", format!(\"%s.get() = {:?}, pending amount is %s\", %s.get())); }" % (expr, num(pending), self.idx, expr.replace('"', "'"), num(pending), expr))
+                else:
+                    out.append("    if %s.observe_closure_duration(|| %d) != %d { r.fail(%d, \"auto-flush-closure-result-lost\", String::new()); }" % (expr, self.idx + 7, self.idx + 7, self.idx))
+                    s0, c0 = expected.get(key, (0, 0))
+                    expected[key] = (s0, c0 + 1)  # the timed closure adds one observation of a few nanoseconds
+                    pa, pc_ = pend.get(key, (0, 0))
+                    pend[key] = (pa, pc_ + 1)
+                    pc = 0 if self.zero_interval else pend[key][1]
+                    out.append("    if %s.get_sample_count() != %d { r.fail(%d, \"auto-flush-local-get-wrong\", format!(\"get_sample_count = {}, pending observations are %d\", %s.get_sample_count())); }" % (expr, pc, self.idx, pc, expr))
+                out.append("    r.part.count(\"auto_flush_getter_checks\", 1);")
+                if rng.random() < 0.2:
+                    out.append("    %s.flush();" % expr)
+                    pend = {}
         # undeclared values
         if not self.auto_flush:
             e = "m"
